@@ -3337,33 +3337,26 @@ class sptensor:
                 OtherZeroSubsIdx = tt_setdiff_rows(other.allsubs(), other.subs)
                 OtherZeroSubs = other.allsubs()[OtherZeroSubsIdx]
 
-            # Both nonzero
+            # Both nonzero (the common entries are paired by subscript: the two operands
+            # may store them in different orders)
             if self.subs.size > 0 and other.subs.size > 0:
                 idxSelf = tt_intersect_rows(self.subs, other.subs)
-                idxOther = tt_intersect_rows(other.subs, self.subs)
                 newsubs = self.subs[idxSelf, :]
-                newvals = self.vals[idxSelf] / other.vals[idxOther]
+                newvals = self.vals[idxSelf] / other.extract(newsubs).reshape(-1, 1)
             else:
-                newsubs = np.empty((0, len(self.shape)))
+                newsubs = np.empty((0, len(self.shape)), dtype=int)
                 newvals = np.empty((0, 1))
 
-            # Self nonzero and other zero
+            # Self nonzero and other zero: x / 0 = +-inf
             if self.subs.size > 0:
                 moresubs = tt_intersect_rows(self.subs, OtherZeroSubs)
-                morevals = np.empty((moresubs.shape[0], 1))
-                morevals.fill(np.nan)
                 if moresubs.size > 0:
-                    newsubs = np.vstack((newsubs, SelfZeroSubs[moresubs, :]))
+                    with np.errstate(divide="ignore"):
+                        morevals = self.vals[moresubs] / 0.0
+                    newsubs = np.vstack((newsubs, self.subs[moresubs, :]))
                     newvals = np.vstack((newvals, morevals))
 
-            # other nonzero and self zero
-            if other.subs.size > 0:
-                moresubs = tt_intersect_rows(other.subs, SelfZeroSubs)
-                morevals = np.empty((moresubs.shape[0], 1))
-                morevals.fill(0)
-                if moresubs.size > 0:
-                    newsubs = np.vstack((newsubs, OtherZeroSubs[moresubs, :]))
-                    newvals = np.vstack((newvals, morevals))
+            # other nonzero and self zero: 0 / y = 0, nothing to store
 
             # Both zero
             moresubs = tt_intersect_rows(SelfZeroSubs, OtherZeroSubs)
@@ -3377,7 +3370,15 @@ class sptensor:
 
         if isinstance(other, ttb.tensor):
             csubs = self.subs
-            cvals = self.vals / other[csubs][:, None]
+            with np.errstate(divide="ignore"):
+                cvals = self.vals / other.data[tuple(csubs.transpose())].reshape(-1, 1)
+            # 0 / 0 = nan where neither operand has a nonzero (0 / y = 0 is not stored)
+            bothzero = other.data == 0
+            bothzero[tuple(csubs.transpose())] = False
+            nansubs = np.argwhere(bothzero)
+            if nansubs.size > 0:
+                csubs = np.vstack((csubs, nansubs))
+                cvals = np.vstack((cvals, np.full((nansubs.shape[0], 1), np.nan)))
             return ttb.sptensor(csubs, cvals, self.shape)
         if isinstance(other, ttb.ktensor):
             # TODO consider removing epsilon and generating nans consistent with above
